@@ -271,6 +271,8 @@ def cq_machine(parts):
     cmds = cq_list(["(mkCommandDef %s P_Persistent [] %s)" % (cq_str(d[0]), cq_fieldlist(d[1:])) for d in order(parts["commanddefs"])])
     facts = cq_list(["(mkFactDef %s %s %s false)" % (cq_str(d[0]), cq_fieldlist(d[1]), cq_fieldlist(d[2])) for d in order(parts["factdefs"])])
     structs = cq_list(["(mkStructDef %s %s)" % (cq_str(d[0]), cq_fieldlist(d[1:])) for d in order(parts["structdefs"])])
+    enums = cq_list(["(mkEnumDef %s %s)" % (cq_str(d[0]), cq_list(["(%s, %s)" % (cq_str(v[0]), cq_z(v[1])) for v in d[1:]]))
+                     for d in order(parts.get("enumdefs", []))])
     if "codemap" in parts:
         cm = parts["codemap"]
         cmt = "(Some (mkCodeMap %s %s))" % (cq_list([str(c) for c in unhx(cm[0])]),
@@ -280,8 +282,8 @@ def cq_machine(parts):
     glob = cq_fields_sorted(parts["globals"], cq_const)
     acts, cmds, facts, structs, cmt, glob = (hoist(x) for x in (acts, cmds, facts, structs, cmt, glob))
     if via:
-        return "(from_module (mkModuleV0 %s %s %s %s %s %s [] %s %s))" % (prog, labels, acts, cmds, facts, structs, cmt, glob)
-    return "(mkMachine %s %s %s %s %s %s [] %s %s)" % (prog, labels, acts, cmds, facts, structs, cmt, glob)
+        return "(from_module (mkModuleV0 %s %s %s %s %s %s %s %s %s))" % (prog, labels, acts, cmds, facts, structs, enums, cmt, glob)
+    return "(mkMachine %s %s %s %s %s %s %s %s %s)" % (prog, labels, acts, cmds, facts, structs, enums, cmt, glob)
 
 
 CMD_ID = int.from_bytes(bytes([7] * 32), "big")
@@ -862,6 +864,83 @@ class Gen:
                                     ["ctx"] + c, ["stack"] + st, ["pc", "0"], ["io", ans, ans], ["steps", "1"], ["entry", "step"]])
         return out
 
+    # ---------------------------------------------------------------- the struct codec behind Serialize / Deserialize
+    def codec_value(self, ty, depth=0):
+        """a value of type ty (s-expression) for the codec family"""
+        r = self.r
+        if ty == "int":
+            return ["int", str(r.choice([0, 1, -1, 63, 64, -65, 127, 128, 300, I64_MAX, I64_MIN, 1 << 35]))]
+        if ty == "bool":
+            return ["bool", str(r.below(2))]
+        if ty == "string":
+            return ["str", hx(r.choice([b"", b"a", b"hello", "\u00e9\u20ac".encode(), b"x" * 130]))]
+        if ty == "bytes":
+            return ["bytes", hx(bytes(r.below(256) for _ in range(r.choice([0, 1, 3, 32, 130]))))]
+        if ty == "id":
+            return ["id", bytes(r.choice([0, 1, 32, 0x7f, 0x80, 0xff, r.below(256)]) for _ in range(32)).hex()]
+        if ty == "unit":
+            return ["unit"]
+        if ty[0] == "opt":
+            return ["none"] if r.chance(1, 3) else ["some", self.codec_value(ty[1], depth + 1)]
+        if ty[0] == "result":
+            return ["ok", self.codec_value(ty[1], depth + 1)] if r.chance(1, 2) else ["err", self.codec_value(ty[2], depth + 1)]
+        if ty[0] == "enum":
+            return ["enum", ty[1], str(r.below(3))]
+        if ty[0] == "struct":
+            d = [x for x in CODEC_STRUCTS if x[0] == ty[1]][0]
+            return ["struct", d[0]] + [[f[0], self.codec_value(f[1], depth + 1)] for f in d[1:]]
+        raise ValueError(ty)
+
+    def codec_cases(self, instances):
+        """Deserialize on byte strings derived from valid encodings (every truncation, extensions, every structural
+        byte mutated, short ids, random bytes) and Serialize on valid and malformed struct values."""
+        r = self.r
+        out = []
+
+        def mk(prog, ctx, stack, steps=2, drop_defs=False):
+            return ["case", ["prog"] + prog, ["structdefs"] + ([] if drop_defs else CODEC_STRUCTS), ["factdefs"], ["actiondefs"],
+                    ["commanddefs"], ["globals"], ["labels"], ["enumdefs"] + ([] if drop_defs else CODEC_ENUMS),
+                    ["ctx"] + ctx, ["stack"] + stack, ["pc", "0"], ["io"], ["steps", str(steps)], ["entry", "step"]]
+
+        def de(name, b, **kw):
+            return mk(["Deserialize", ["Exit", "normal"]], ["open", name], [["bytes", hx(bytes(b))]], **kw)
+        for n in range(instances):
+            d = CODEC_STRUCTS[n % len(CODEC_STRUCTS)]
+            v = self.codec_value(["struct", d[0]])
+            marks, ids = [], []
+            enc = codec_encode(["struct", d[0]], v, marks, ids)
+            L = len(enc)
+            out.append(de(d[0], enc))
+            out.append(mk(["Serialize", ["Exit", "normal"]], ["seal", d[0]], [v]))
+            out.append(mk(["Serialize", "Deserialize"], ["seal", d[0]], [v]))
+            for k in range(L):                                  # every truncation
+                out.append(de(d[0], enc[:k]))
+            for k in (1, 2, 3):                                 # extension
+                out.append(de(d[0], enc + bytes(r.choice([0, 1, 0x20, 0xff]) for _ in range(k))))
+            for o in marks:                                     # every length / varint / tag byte
+                for nb in {(enc[o] + 1) & 0xff, (enc[o] - 1) & 0xff, 0, 0x7f, 0x80, 0xff} - {enc[o]}:
+                    out.append(de(d[0], enc[:o] + bytes([nb]) + enc[o + 1:]))
+            for o in ids:                                       # id: length byte 32, then 0..31 bytes
+                for k in range(32):
+                    out.append(de(d[0], enc[:o + 1 + k] + enc[o + 33:]))
+                    if r.chance(1, 4):
+                        out.append(de(d[0], enc[:o + 1 + k]))
+            for _ in range(12):                                 # random bytes / random splices
+                k = r.below(L + 1)
+                out.append(de(d[0], enc[:k] + bytes(r.below(256) for _ in range(r.below(40)))))
+            out.append(de(r.choice(["Nope", "S"]), enc))       # unknown struct
+            out.append(de(d[0], enc, drop_defs=True))
+            out.append(mk(["Deserialize"], [r.choice(["seal", "action", "policy"]), d[0]], [["bytes", hx(enc)]], steps=1))
+            # Serialize: malformed values
+            fs = v[2:]
+            bad = [v[:2] + fs[1:], v[:2] + fs + [["zz", ["int", "1"]]], v[:2] + [[fs[0][0], ["ident", "a"]]] + fs[1:],
+                   v[:2] + [[fs[0][0], ["fact", "F", [], []]]] + fs[1:], v[:2] + [[f[0], ["bool", "1"]] for f in fs],
+                   ["struct", "Nope"] + fs]
+            for b in bad:
+                out.append(mk(["Serialize", ["Exit", "normal"]], ["seal", b[1]], [b]))
+            out.append(mk(["Serialize"], ["seal", "Other"], [v], steps=1))
+        return out
+
     # ---------------------------------------------------------------- compiled programs
     def policy_case(self):
         r = self.r
@@ -910,6 +989,77 @@ class Gen:
             else:
                 rows.append(["rowerr", "Internal"])
         return ["ans", res, rows, ["ops"], "nofail"]
+
+
+CODEC_ENUMS = [["Color", ["Red", "0"], ["Green", "1"], ["Blue", "2"]]]
+CODEC_STRUCTS = [
+    ["P1", ["i", "id"], ["n", "int"]],
+    ["P2", ["n", "int"], ["i", "id"]],
+    ["P3", ["t", "string"], ["b", "bytes"], ["o", ["opt", "int"]], ["e", ["enum", "Color"]], ["r", ["result", "int", "string"]],
+     ["s", ["struct", "P1"]], ["u", "unit"], ["k", "bool"]],
+    ["P4", ["o", ["opt", ["struct", "P2"]]], ["oo", ["opt", ["opt", "id"]]], ["i", "id"], ["j", "id"], ["t", "string"]],
+]
+
+
+def _varint(n):
+    out = bytearray()
+    while True:
+        b = n & 0x7f
+        n >>= 7
+        if n:
+            out.append(b | 0x80)
+        else:
+            out.append(b)
+            return bytes(out)
+
+
+def _zigzag(i):
+    return ((i << 1) ^ (i >> 63)) & ((1 << 64) - 1)
+
+
+def codec_encode(ty, v, marks, ids, base=0):
+    """postcard-style encoding of serialize.rs; marks = offsets of length / varint / tag bytes, ids = offsets of id length bytes"""
+    out = bytearray()
+
+    def mark(nbytes=1):
+        marks.extend(range(base + len(out), base + len(out) + nbytes))
+    if ty == "unit":
+        pass
+    elif ty == "int" or (isinstance(ty, list) and ty[0] == "enum"):
+        vb = _varint(_zigzag(int(v[1] if ty == "int" else v[2])))
+        mark(len(vb))
+        out += vb
+    elif ty == "bool":
+        mark()
+        out.append(int(v[1]))
+    elif ty in ("string", "bytes"):
+        b = unhx(v[1])
+        lb = _varint(len(b))
+        mark(len(lb))
+        out += lb + b
+    elif ty == "id":
+        ids.append(base + len(out))
+        mark()
+        out += b"\x20" + unhx(v[1])
+    elif ty[0] == "opt":
+        mark()
+        if v[0] == "none":
+            out.append(0)
+        else:
+            out.append(1)
+            out += codec_encode(ty[1], v[1], marks, ids, base + len(out))
+    elif ty[0] == "result":
+        mark()
+        out.append(0 if v[0] == "ok" else 1)
+        out += codec_encode(ty[1] if v[0] == "ok" else ty[2], v[1], marks, ids, base + len(out))
+    elif ty[0] == "struct":
+        d = [x for x in CODEC_STRUCTS if x[0] == ty[1]][0]
+        fv = {f[0]: f[1] for f in v[2:]}
+        for f in d[1:]:
+            out += codec_encode(f[1], fv[f[0]], marks, ids, base + len(out))
+    else:
+        raise ValueError(ty)
+    return bytes(out)
 
 
 POLICY_TEMPLATE = """
@@ -1075,6 +1225,9 @@ def run(ctx):
             cases.append(g.hostile_case(gen_kinds, k))
     sweep = g.sweep_cases(gen_kinds, ctx.thorough)
     cases += sweep
+    codec = g.codec_cases((16 if ctx.thorough else 4) * scale)
+    codec_lo = len(cases)
+    cases += codec
     n_hostile = len(cases)
     for _ in range(n_policy):
         cases.append(g.policy_case())
@@ -1144,7 +1297,18 @@ def run(ctx):
     # ---- model = implementation, compared inside Coq
     header = ("From Aranya Require Import base.Harness model.VmBase gen.GenVm model.Vm model.VmHarness.\n"
               "Open Scope N_scope.\nOpen Scope string_scope.\n")
-    pairs = [(c, r) for (c, r) in zip(cases, results) if r[1][0] != "panic"]
+    # the codec family's verdict is the oracle above (the codec is an oracle of the model whose answers are
+    # read off the implementation): only a sample of it is also evaluated on the model
+    codec_every = 2 if ctx.thorough else 4
+    pairs = [(c, r) for i, (c, r) in enumerate(zip(cases, results))
+             if r[1][0] != "panic" and not (codec_lo <= i < codec_lo + len(codec) and (i - codec_lo) % codec_every)]
+    # the generator's valid encodings must still be what the implementation decodes (else the derived
+    # mutations no longer sit next to valid inputs)
+    valid_idx = [i for i in range(codec_lo, codec_lo + len(codec))
+                 if cases[i][1][1:] == ["Deserialize", ["Exit", "normal"]] and i + 1 < len(cases) and cases[i + 1][1][1] == "Serialize"]
+    not_decoded = [i for i in valid_idx if results[i][1] != ["exited", "normal"]]
+    ctx.oblige("generator:valid-struct-encodings-decode", bool(valid_idx) and not not_decoded,
+               "the generator's encoding of a valid struct is rejected: %s" % [outs["dev"][i][:300] for i in not_decoded[:2]])
 
     def render(chunk):
         defs, items = with_hoisting(lambda: [cq_case(c, r) for (c, r) in chunk])
@@ -1206,10 +1370,17 @@ def run(ctx):
         "rule": "hostile case = 1-6 gadgets/stray instructions over every instruction kind with random operands, targets, "
                 "labels, initial stack (0..100 values), context, code map and I/O script, run for 1..60 steps; compiled case = "
                 "sweep = every instruction kind (each with 1-4 fixed operands) x 19 fixed stacks (x all 5 contexts in the thorough tier), one step; "
+                "codec = Deserialize (open context) on byte strings derived from valid encodings of 4 struct schemas with id/bytes/"
+                "string/optional/nested-struct/enum/result fields: every truncation, extension by 1-3 bytes, every length/varint/tag "
+                "byte set to +-1,0,0x7f,0x80,0xff, id length 32 followed by 0..31 bytes, random splices; Serialize (seal context) on "
+                "valid and malformed struct values; "
                 "a policy compiled by the real compiler, entered through call_action/call_command_policy/call_seal/call_open; "
                 "non-trivial = at least 3 instructions executed or a policy exit; distinct by case text",
-        "hostile_cases": n_hostile - len(sweep),
+        "hostile_cases": n_hostile - len(sweep) - len(codec),
         "sweep_cases": len(sweep),
+        "codec_cases": len(codec),
+        "codec_cases_by_result": {k: sum(1 for i in range(codec_lo, codec_lo + len(codec)) if status_class(results[i]) == k)
+                                  for k in {status_class(results[i]) for i in range(codec_lo, codec_lo + len(codec))}},
         "compiled_cases": len(cases) - n_hostile,
         "instructions_executed_step_mode": steps_total,
         "executions_per_instruction_kind": per_kind_exec,
